@@ -129,6 +129,23 @@ def explore(run, cellname, gdim, quick):
     for a, b in itertools.product(l1, repeat=2):
         c.append(("mul", a.recipe, b.recipe))
     l2 = level(c, 2, sample_every=400)
+    # L2x: two Kronecker-delta contractions over the SAME summation index object with different targets, over equal and
+    # over different contracted factors (the pass eliminates each sum by substituting the index in the factor)
+    c = []
+    gd = U.t["I"].ufl_shape[0]
+    targets = [0, 1, "i", "j"]
+    deltas = [("getitem", ("t", "I"), a, "k") for a in targets] + [("getitem", ("t", "I"), "k", a) for a in targets]
+    factors = [("getitem", ("t", "v"), "k"), ("getitem", ("t", "A"), "k", 0), ("getitem", ("t", "A"), 0, "k"),
+               ("mul", ("getitem", ("t", "v"), "k"), ("t", "f"))]
+    if gd == U.t["J"].ufl_shape[0]:
+        factors.append(("getitem", ("t", "J"), "k", 0))
+    for d1, d2 in itertools.product(deltas, repeat=2):
+        for e1 in factors:
+            for e2 in factors if not quick else [e1, factors[0]]:
+                c.append(("mul", ("mul", d1, e1), ("mul", d2, e2)))
+                c.append(("add", ("mul", d1, e1), ("mul", d2, e2)))
+    l2x = level(c, 21, sample_every=400)
+    run.bounds[f"{tag}:delta_pairs"] = len(l2x)
     # L3: products of L2 with L1 / scalars / powers (triple contractions, J K J chains, reciprocal cancellation)
     c = []
     pw = [s for s in l2 if s.recipe[0] in ("pow", "div", "abs")]
